@@ -38,6 +38,7 @@ Events (JSON lists)
 ``['run', i, [targets]]``   run request for algorithm i (``organize`` as ``cmd_run`` does; [] = no targets)
 ``['timer', i]``            periodic event for algorithm i fires (``schedule.defer`` with a boot moment)
 ``['tick']``                one ``farm.dispatch()``
+``['noop']``                nothing happens (lets an oracle look at the state right after the load)
 ``['reply', tag, target, k, outcome]``  the k-th worker holding unit tag[target] answers; outcome is
                             ``'S' + subset of 'pq'`` (success, those values new), ``'F'`` failure, ``'I'`` invalid
 '''
@@ -702,7 +703,10 @@ class Sim:
         return h
 
     def _wipe_chron(self):
-        shutil.rmtree(os.path.join(self.dbs, 'chronicles'), ignore_errors=True)
+        # remove the journal files only (rmdir is slow); the checks on the chronicle are before/after deltas
+        for dp, _dn, fns in os.walk(os.path.join(self.dbs, 'chronicles')):
+            for fn in fns:
+                os.unlink(os.path.join(dp, fn))
         self.chron_dirty = False
 
     def chron_entries(self):
@@ -777,6 +781,9 @@ class Sim:
         return not (F._jobs or F._cluster or F._cloud or F._busy or self.running)
 
     def key(self):
+        '''concrete scheduler + farm state; run ids by rank, time stamps dropped; the insertion order of
+        `todo` and the order of `que` among equal levels are dropped too because they depend on the
+        interpreter's string hash seed (set iteration in organize/update), which would make counts irreproducible'''
         rids = set()
         for n in self.nodes.values():
             if n.get('runid') is not None:
@@ -788,7 +795,7 @@ class Sim:
         rank[None] = -1
         nodes = tuple(
             (
-                tuple(self.nodes[t].get('todo')),
+                frozenset(self.nodes[t].get('todo')),
                 frozenset(self.nodes[t].get('doing')),
                 frozenset(self.nodes[t].get('do')),
                 self.nodes[t].get('status').name,
@@ -798,7 +805,7 @@ class Sim:
         )
         return (
             nodes,
-            tuple(j.tag for j in S.que),
+            tuple(sorted(j.tag for j in S.que)),
             tuple((m.jobid, m.target, rank[m.runid]) for m in F._cluster),
             tuple(j.tag for j in F._jobs),
             tuple(sorted(F._busy)),
@@ -932,6 +939,8 @@ class Sim:
                 self._tick(rec)
             elif kind == 'reply':
                 self._reply(ev, rec)
+            elif kind == 'noop':
+                pass  # observe the state as it is (used to look at the state right after the load)
             else:
                 raise ValueError('unknown event %r' % (ev,))
         except Exception as e:  # an exception escaping a reactor callback
@@ -1354,6 +1363,83 @@ def explore_job(job, monitor_factory, frontier_hook=None):
     finally:
         sim.close()
     return res
+
+
+def tier_jobs(tier, seed, deadline, cfg, walk_cfg, drain=None, bias=None, depth_delta=0,
+              thorough_cap=4000, walks_quick=5, walks_thorough=12):
+    '''the common plan of universes / bounds used by c01..c05 (each harness may append its own jobs)'''
+    jobs = []
+
+    def job(u, depth, cap, walks, walk_len, sample=False):
+        jobs.append(
+            {
+                'universe': u.to_json(), 'cfg': cfg, 'walk_cfg': walk_cfg, 'depth': depth, 'cap': cap,
+                'walks': walks, 'walk_len': walk_len, 'seed': seed, 'deadline': deadline, 'drain': drain,
+                'bias': bias, 'sample': sample,
+            }
+        )  # fmt: skip
+
+    if tier == 'quick':
+        for k, spec in enumerate(curated_specs()):
+            big = spec.n >= 4
+            for targets, workers, depth in (
+                (['T1'], 1, 4 if big else 5),
+                (['T1'], 2, 5 if big else 6),
+                (['T1', 'T2'], 2, 3 if big else 4),
+            ):
+                job(
+                    Universe(spec, targets, workers), max(1, depth + depth_delta), 10**9,
+                    walks_quick, 7 + (k + workers) % 6, sample=(k in (1, 5) and len(targets) == 2),
+                )  # fmt: skip
+    else:
+        for k, spec in enumerate(all_specs(4)):
+            job(
+                Universe(spec, ['T1', 'T2'], 2), 7 + depth_delta, thorough_cap,
+                walks_thorough, 14, sample=k in (40, 700),
+            )  # fmt: skip
+        for k, spec in enumerate(curated_specs()):
+            for targets, workers in ((['T1'], 1), (['T1'], 2), (['T1', 'T2'], 1), (['T1', 'T2'], 3)):
+                job(
+                    Universe(spec, targets, workers), 8 + depth_delta, 5 * thorough_cap,
+                    2 * walks_thorough, 18,
+                )  # fmt: skip
+    return jobs
+
+
+def run_tier(prop, tier, seed, jobs, job_fn, monitor_factory, rule, clauses, t0):
+    parts = run_parallel(job_fn, jobs, 1 if tier == 'quick' else 16)
+    res = Result()
+    for p in parts:
+        res.merge(p)
+    # "exhaustive" is claimed for the BFS part only: every reachable (state, event) transition within the
+    # stated depth of every universe of the tier was executed (no cap / deadline truncation)
+    out = finish(prop, res, monitor_factory, rule, True, clauses)
+    out['wall_s'] = round(time.time() - t0, 2)
+    out['universes'] = len(jobs)
+    out['bfs_depths'] = sorted({j['depth'] for j in jobs})
+    return out
+
+
+BOUND_TEXT = (
+    'real schedule/farm code on synthetic engines.  quick: 11 curated DAGs (<= 4 algorithms; chains, diamonds, '
+    'task/analysis mixes) x {1 target/1 worker, 1 target/2 workers, 2 targets/2 workers}: ALL event sequences '
+    'of length <= 4..6 (3..5 for the 4-node graphs) with equal states merged, plus 5 seeded random histories '
+    'of length 7..12 per universe.  thorough: every DAG on <= 4 topologically numbered algorithms x every '
+    'task/analysis assignment (1098 graphs) x 2 targets x 2 workers: event sequences of length <= 7 under a '
+    'per-graph transition cap, the curated graphs with 1..3 workers to length 8, plus seeded random histories '
+    'of length 14..18 (16 processes)'
+)
+
+RULE = (
+    'a case is one event applied to the real schedule/farm code.  Part 1 (seed independent): per universe '
+    '(graph x targets x workers) breadth-first over all event sequences up to the stated depth - run request '
+    'per algorithm and target, dispatch tick, reply of any in-flight unit with success{},{p},{q},{p,q} new / '
+    'failure / invalid - merging states whose concrete scheduler+farm(+ghost) state coincide (run ids by rank; '
+    'time stamps, todo insertion order and que order dropped); "exhaustive" refers to this part: every '
+    'reachable (state,event) transition within the depth was executed.  Part 2: seeded random histories '
+    '(also timer events, all-target and empty requests).  distinct = distinct (universe, state, event) '
+    'triples; non-trivial = the event was enabled in a state reached on the real code.'
+)
 
 
 # ---- parallel helper ---------------------------------------------------------------------------------------
